@@ -40,6 +40,7 @@ RULE_TEXT = (
     'purge / delete dropped at least one table; distinct = digest of (app '
     'count, removed set, table names, relation topology, kind).')
 RULE_TEXT += ' Kind "relabel_purge" (10%): a still-installed app changes its label in the run that purges a removed app.'
+RULE_TEXT += ' Kind "purge_pending_fault" (1 in 20): purge + pending evolution in one run, every statement index fails in turn.'
 ASSUMPTIONS = [
     'a removed app is never referenced by a remaining app (otherwise the '
     'remaining models would not import)',
@@ -136,6 +137,79 @@ def _exec_relabel_purge(scn, res, stats, viols):
     return res
 
 
+def _gen_purge_pending_fault(rng):
+    """A purge shares its run with a pending evolution of an installed
+    app, and a statement of the run fails at every index in turn: whatever
+    fails, the removed app's tables and its signature entry stay together
+    (both still there, or both gone)."""
+    intf = lambda n: {'name': n, 'kind': 'Integer', 'attrs': {'null': True}}
+    va = [{'name': 'Item', 'fields': [intf('a')], 'meta': {}}]
+    vb = [{'name': 'Node', 'fields': [intf('n')], 'meta': {}}]
+    if rng.random() < 0.5:
+        vb[0]['fields'].append({'name': 'm', 'kind': 'ManyToMany',
+                                'attrs': {}, 'to': 'vb.Node'})
+    if rng.random() < 0.4:
+        vb.append({'name': 'Part', 'fields': [intf('p')], 'meta': {}})
+    project = {'apps': {
+        'va': {'v0': va, 'steps': [{'evos': [{'label': 'add_b', 'mutations': [
+            {'op': 'AddField', 'model': 'Item', 'field': intf('b')}]}]}]},
+        'vb': {'v0': vb, 'steps': [{'evos': []}]}},
+        'order': rng.choice([['va', 'vb'], ['vb', 'va']]),
+        'databases': ['default']}
+    return {'kind': 'purge_pending_fault', 'project': project,
+            'removed': ['vb'],
+            'rows': {'va_item': [{'id': 1, 'a': 3}],
+                     'vb_node': [{'id': 1, 'n': 7}]}}
+
+
+def _exec_purge_pending_fault(scn, res, stats, viols):
+    P = scn['project']
+    sts = proj.states(P)
+    mine = owned_tables(sts[0], ['vb'])
+    detail = dict(kind='purge_pending_fault', removed=['vb'],
+                  tables=sorted(mine))
+    res['shape'] = spec.canon(['purge_pending_fault', P['order'],
+                               sorted(mine)])
+    stats['purge_pending_fault_scenarios'] = 1
+    with runner.Workspace() as ws:
+        r0 = common.install(ws, P, sts, 0, scn['rows'])
+        if r0.status != 'ok' or getattr(r0, 'rows_rejected', None):
+            raise runner.HarnessError('purge_pending_fault install: %s' % (
+                r0.status,))
+        proj.deploy(ws, P, 1, sts, apps=['va'], clean=True)
+        ws.fork_db('pre')
+        u = ws.run('evolve', {'execute': True, 'purge': True}, scope='evo')
+        if u.status != 'ok':
+            viols.append(violation(
+                'C15.purge_failed', status=u.status,
+                msg=((u.exit or {}).get('msg') or '')[:200], **detail))
+            res['runs'] = ws.nruns
+            return res
+        n = min(u.eligible_count(), 12)
+        for k in range(n):
+            ws.use_db('pre')
+            f = ws.run('evolve', {'execute': True, 'purge': True},
+                       fault={'kind': 'sql_error', 'k': k, 'scope': 'evo'})
+            inj = f.injected()
+            if inj is None:
+                continue
+            stats['fired_sql_error'] = stats.get('fired_sql_error', 0) + 1
+            sf = snapshot.snapshot(ws)
+            present = [t for t in sorted(mine) if t in sf['tables']]
+            in_sig = 'vb' in (c03.stored_apps(sf) or {})
+            if (len(present) not in (0, len(mine))) or \
+                    (bool(present) != in_sig):
+                viols.append(violation(
+                    'C15.purged_tables_vs_signature', k=k,
+                    statement=inj['sql'][:100], tables_present=present,
+                    in_signature=in_sig, **detail))
+        res['runs'] = ws.nruns
+        res['nontrivial'] = bool(stats.get('fired_sql_error'))
+        res['sample'] = {'kind': 'purge_pending_fault', 'order': P['order'],
+                         'fault_points': n}
+    return res
+
+
 def _gen_empty_purge(rng):
     """An app deletes all of its models while still installed (its stored
     signature entry becomes empty) and leaves INSTALLED_APPS afterwards:
@@ -207,6 +281,8 @@ def generate(seed, index, tier):
         return _gen_relabel_purge(rng)
     if index % 20 == 8:
         return _gen_empty_purge(rng)
+    if index % 20 == 18:
+        return _gen_purge_pending_fault(rng)
     cfg = gen.default_config()
     cfg['relations'] = True
     cfg['m2m'] = rng.random() < 0.7
@@ -300,6 +376,8 @@ def execute(scn):
         return _exec_relabel_purge(scn, res, stats, viols)
     if scn['kind'] == 'empty_purge':
         return _exec_empty_purge(scn, res, stats, viols)
+    if scn['kind'] == 'purge_pending_fault':
+        return _exec_purge_pending_fault(scn, res, stats, viols)
     st0 = sts[0]
     topo = []
     for a in apps:
@@ -439,7 +517,8 @@ def execute(scn):
 
 def shrinks(scn):
     P = scn['project']
-    if scn['kind'] in ('relabel_purge', 'empty_purge'):
+    if scn['kind'] in ('relabel_purge', 'empty_purge',
+                       'purge_pending_fault'):
         return
     if scn.get('fault'):
         c = copy.deepcopy(scn)
